@@ -172,6 +172,18 @@ def mutants(spec):
                         else:
                             setconn(s, ["cat", [[own, 1]]])
                         yield own + "_signal", "%s/%s/in_concat" % (depth, kind), s
+                    # -- objects the module held once, displaced since by another object of the same name
+                    s = clone(); setconn(s, ["evicted", w]); s["modules"][mi]["style"] = "proc"; s["modules"][mi]["late"] = False
+                    yield "orphan_signal", "%s/%s/evicted" % (depth, kind), s
+                    s = clone(); setconn(s, ["evicted", w, "wider"]); s["modules"][mi]["style"] = "proc"; s["modules"][mi]["late"] = False
+                    yield "orphan_signal", "%s/%s/evicted_by_wider" % (depth, kind), s
+                    if kind == "inst":
+                        for ck, c in enumerate(spec["cells"]):
+                            cp = [q for q in model.cell_ports(spec, ck) if q[1] == w]
+                            if cp:
+                                s = clone(); setconn(s, ["pref_evicted", ["cell", ck], cp[0][0]]); s["modules"][mi]["style"] = "proc"; s["modules"][mi]["late"] = False
+                                yield "orphan_instance", "%s/portref_target_evicted" % depth, s
+                                break
                     if kind == "inst":
                         for ck, c in enumerate(spec["cells"]):
                             cp = [q for q in model.cell_ports(spec, ck) if q[1] == w]
